@@ -93,6 +93,11 @@ def score_agreement(case, o):
         for scorer, f in (("MI-numba", lambda x: float(ranking_mi_numba.mutual_info_estimator_numba(x, lab, np.float32(1.0), False))),
                           ("MI-numba-randomized", lambda x: float(ranking_mi_numba.mutual_info_estimator_numba(x, lab, np.float32(1.0), True))),
                           ("max-value-coverage", lambda x: float(ranking_cov_alignment.max_pair_coverage(x, lab)))):
+            if scorer == "MI-numba-randomized" and (np.array_equal(inter, lab) or np.array_equal(tup, lab)):
+                # the estimator switches the correction off when the two code vectors are element-wise equal (its self-pair
+                # test, C02's `entry`); a coding that happens to coincide with the label's codes is not comparable with one
+                # that does not.  C10_score_MI is about `core`, where the flag is an argument.
+                continue
             a, b = f(inter), f(tup)
             d = abs(a - b)
             if not (d <= worst[0]):
